@@ -30,6 +30,8 @@ struct St {
     by_id: HashMap<usize, usize>,
     // the document was read with text expansion on (the view xq / xe use): `domx`
     expanded: bool,
+    // the XPath evaluation context of the caller, kept across the whole history
+    qctx: std::cell::RefCell<xml_xpath::eval::model::Context>,
 }
 
 impl St {
@@ -385,7 +387,7 @@ fn monitors(st: &St, exprs: &[String]) -> String {
     let text = format!("{}", st.doc);
     let (rt, q) = match XmlDocument::from_raw_with_context(&text, Context::from_text_expanded(st.expanded)) {
         Ok(("", d2)) => {
-            let fresh = St { doc: d2.clone(), handles: vec![], by_id: HashMap::new(), expanded: st.expanded };
+            let fresh = St { doc: d2.clone(), handles: vec![], by_id: HashMap::new(), expanded: st.expanded, qctx: Default::default() };
             let a = plain_dump(&st.doc.as_node());
             let b = plain_dump(&fresh.doc.as_node());
             // with text expansion on, the segmentation of character data into merged nodes is not comparable
@@ -399,7 +401,9 @@ fn monitors(st: &St, exprs: &[String]) -> String {
                 for ex in exprs {
                     let la = crate::ops_xpath::Locator::new_merged(&st.doc);
                     let lb = crate::ops_xpath::Locator::new_merged(&d2);
-                    let mut c1 = xml_xpath::eval::model::Context::default();
+                    // the edited document is queried through ONE evaluation context that lives as long as the history
+                    // (a caller that edits and queries in turn keeps its context); the fresh parse gets a fresh one
+                    let mut c1 = st.qctx.borrow_mut();
                     let mut c2 = xml_xpath::eval::model::Context::default();
                     let r1 = xml_xpath::query(st.doc.clone(), ex, &mut c1)
                         .map(|v| strip(&crate::ops_xpath::show_value(&v, &la)))
@@ -457,7 +461,7 @@ fn strip(f: &str) -> String {
 
 // dump without handles, adjacent text nodes merged (what a re-parse can reproduce)
 fn plain_dump(n: &XmlNode) -> String {
-    let empty = St { doc: match n { XmlNode::Document(d) => d.clone(), _ => return String::new() }, handles: vec![], by_id: HashMap::new(), expanded: false };
+    let empty = St { doc: match n { XmlNode::Document(d) => d.clone(), _ => return String::new() }, handles: vec![], by_id: HashMap::new(), expanded: false, qctx: Default::default() };
     let mut seen = vec![];
     let d = dump(&empty, n, 0, &mut seen).replace("h?:", "");
     // an empty text node denotes no character; adjacent text nodes read back as one; a reference to a predefined
@@ -799,7 +803,7 @@ fn dom_with(args: &[String], expanded: bool) -> String {
         _ => return "err:doc".to_string(),
     };
     let exprs: Vec<String> = args[1].split(';').filter(|s| !s.is_empty()).map(|s| s.to_string()).collect();
-    let mut st = St { doc: doc.clone(), handles: vec![], by_id: HashMap::new(), expanded };
+    let mut st = St { doc: doc.clone(), handles: vec![], by_id: HashMap::new(), expanded, qctx: Default::default() };
     let root = doc.as_node();
     st.number(&root, 0);
     let mut out: Vec<String> = vec![];
@@ -899,7 +903,7 @@ pub fn foreign(args: &[String]) -> String {
         }
     }
     let after = (format!("{}", d1), format!("{}", d2));
-    let st = St { doc: d1.clone(), handles: vec![], by_id: HashMap::new(), expanded: false };
+    let st = St { doc: d1.clone(), handles: vec![], by_id: HashMap::new(), expanded: false, qctx: Default::default() };
     let mon = monitors(&st, &[]);
     let same = if before == after && mon.starts_with("inv=ok") { "same".to_string() } else { format!("CHANGED {} -> {} / {}", e(&before.0), e(&after.0), mon) };
     format!("{} | {}", out.join(";"), same)
